@@ -202,12 +202,12 @@ pub fn checks() -> Vec<Check> {
     Check {
         id: "C08",
         level: "model_checking",
-        stages: vec![Stage { timeout_s: 120, ..st("c08.sweep", c08::sweep_nopanic, (0, 0), 3, "33 seeds (e57spec scenes, writer files, 14 bundled files) x the complete single-mutation menu (header fields, XML numeric/type slots, element delete/duplicate/move, prototype conspiracies, section and packet fields, payload flips, truncation/extension, unsealed flips); thorough: pairs with a second numeric mutation and all 64 option vectors; every read entry point per mutant") }],
+        stages: vec![Stage { timeout_s: 120, ..st("c08.sweep", c08::sweep_nopanic, (0, 0), 3, "33 seeds (e57spec scenes, writer files, 14 bundled files) x the complete single-mutation menu (header fields, XML numeric/type slots, element delete/duplicate/move, prototype conspiracies, section and packet fields, payload flips, truncation/extension, unsealed flips); thorough: pairs with a second numeric mutation and all 64 option vectors; every read entry point per mutant") }, Stage { timeout_s: 1800, ..st("c08.pagecount", c08::pagecount, (0, 0), 3, "validate_crc over formula devices of 2^k+3 valid 52-byte pages, k in {8, 15, 16, 24} (thorough: and 31, i.e. 111 GB that exist only as a formula): the call returns, no counter overflows") }],
         extra: None,
         rule: "mutation neighbourhood enumerated completely: every item of the finite, ordered menu of every seed; each mutant runs validate_crc, raw_xml, new, descriptor listing, raw and simple iteration (8 / 64 option vectors, to the first Err/None or the step cap) and blob extraction under catch_unwind in a subprocess; overflow checks and debug assertions on; distinct = distinct mutant bytes; non-trivial = mutant ran through all entry points",
         assumptions: &["'all byte strings' is covered as the <=1 (thorough <=2) mutation neighbourhood of the seed corpus under a fixed menu", "memory exhaustion and hangs are attributed to C09"],
         ignore_resource_deaths: true,
-        budget_s: (120, 1500),
+        budget_s: (120, 2400),
     },
     Check {
         id: "C09",
